@@ -214,7 +214,7 @@ func (s *metricSchemaStore) PrepareFlush() {
 	s.lock.Lock()
 	defer s.lock.Unlock()
 
-	if s.immutable == nil {
+	if s.immutable == nil || s.immutable.IsEmpty() { // an empty immutable store must not block the swap forever
 		s.immutable = s.mutable
 		s.mutable = imap.NewIntMap[*metric.Schema]()
 	}
